@@ -35,7 +35,9 @@ import (
 //	paths:    ADMIN (TerminateSession admin_reset) | IDLE (idle timeout + periodic cleanup) |
 //	          TIMEOUT (RADIUS Session-Timeout + periodic cleanup; from AUTH on) |
 //	          AUTHFAIL (re-authentication rejected, the protocol handler terminates with auth_failed) |
-//	          DISCONNECT (CoAProcessor.HandleDisconnect) | STOP (Manager.Stop)
+//	          DISCONNECT (CoAProcessor.HandleDisconnect) | STOP (Manager.Stop) |
+//	          DISCONNECT[attrs] (the Disconnect-Request naming the session by other attribute sets, through the
+//	          real CoAServer attribute parser: disconnect_test.go)
 const (
 	smIdle    = 2 * time.Minute
 	smSessTO  = 7 * time.Minute
@@ -54,9 +56,14 @@ func submgrKind() kindDef {
 		// M=graceful (AccountingManager.Stop while still unreachable), crash (process dies while still unreachable),
 		// heals (reachable again before a graceful shutdown). The accounting clause is judged per session over BOTH
 		// process lifetimes; the bystander's session ends with the process and is accounted by orphan recovery.
-		cfgs: []string{"radius", "radius/fault=release-v4", "radius/fault=release-v6", "radius/outage=graceful", "radius/outage=crash", "radius/outage=heals"},
+		// .../acct=coa: the deployment leaves the accounting of a RADIUS-initiated termination to the component that
+		// documents it as its job: radius.CoAProcessor with an accounting manager attached issues the Accounting-Stop
+		// (cause NAS-Request) before it calls the session terminator, so the session_terminate handler sends the Stop
+		// for every reason EXCEPT nas_request. (In the other configurations the handler calls StopSession for every
+		// reason and the accounting manager's idempotence hides whether the processor did its part.)
+		cfgs: []string{"radius", "radius/fault=release-v4", "radius/fault=release-v6", "radius/outage=graceful", "radius/outage=crash", "radius/outage=heals", "radius/acct=coa"},
 		prefixes: func(cfg string) []string {
-			if strings.Contains(cfg, "/fault=") || strings.Contains(cfg, "/outage=") {
+			if strings.Contains(cfg, "/fault=") || strings.Contains(cfg, "/outage=") || strings.Contains(cfg, "/acct=") {
 				return []string{"ACTIVE"}
 			}
 			// ACTIVE-LATE: active, then silent for longer than the idle timeout, then active again BEFORE the next cleanup tick
@@ -66,7 +73,7 @@ func submgrKind() kindDef {
 			if strings.Contains(cfg, "/fault=") {
 				return []string{"ADDR"}
 			}
-			if strings.Contains(cfg, "/outage=") {
+			if strings.Contains(cfg, "/outage=") || strings.Contains(cfg, "/acct=") {
 				return []string{"ACTIVE-LATE"}
 			}
 			return nil
@@ -77,6 +84,14 @@ func submgrKind() kindDef {
 				p = append(p, "TIMEOUT") // the Session-Timeout attribute arrives with the Access-Accept
 			}
 			return p
+		},
+		// the RADIUS Disconnect naming the session by Framed-IP-Address / Calling-Station-Id / combinations (see
+		// disconnect_test.go); by address only once the session has one. quick: the plain configuration; thorough: all.
+		forms: func(cfg, prefix string, thorough bool) []string {
+			if !thorough && cfg != "radius" && cfg != "radius/acct=coa" {
+				return nil
+			}
+			return discForms(prefix != "CREATED" && prefix != "AUTH", thorough)
 		},
 		run: runSubMgr,
 	}
@@ -218,12 +233,15 @@ type smWorld struct {
 	pool   *smPool
 	acct   *bngradius.AccountingManager
 	coa    *bngradius.CoAProcessor
+	coaSrv *bngradius.CoAServer // the listener in front of coa (Disconnect-Request forms arrive as attribute bytes)
 	natM   *nat.Manager
 	qosM   *qos.Manager
 	rs     *radiusScript
 	mount  string
 	fs     *vfs.FS
 	outage string // "", "graceful", "crash", "heals"
+	// acctByCoA (.../acct=coa): the Stop of a nas_request termination is the CoA processor's, not the event handler's
+	acctByCoA bool
 	rc     *bngradius.Client
 	dead   bool // crash: the file system is frozen for the dead process
 	base   mapDump
@@ -258,6 +276,7 @@ func newSMWorld(e *kenv, k kase) *smWorld {
 	})
 	vfs.Mount(w.mount, w.fs)
 	_, w.outage, _ = strings.Cut(k.Cfg, "/outage=")
+	w.acctByCoA = strings.Contains(k.Cfg, "/acct=coa")
 	w.acct = w.newAcct()
 	w.pool = newSMPool()
 	cfg := subscriber.DefaultManagerConfig()
@@ -267,12 +286,22 @@ func newSMWorld(e *kenv, k kase) *smWorld {
 	w.mgr.OnEvent(w.onEvent)
 	w.coa = bngradius.NewCoAProcessor(zap.NewNop())
 	w.coa.SetAccountingManager(w.acct)
-	w.coa.SetSessionLookup(func(id string) (*bngradius.SessionInfo, bool) {
-		if s, ok := w.mgr.GetSession(id); ok {
-			return &bngradius.SessionInfo{SessionID: s.ID, Username: s.Username, MAC: s.MAC, FramedIP: s.IPv4}, true
+	info := func(s *subscriber.Session, ok bool) (*bngradius.SessionInfo, bool) {
+		if !ok || s == nil {
+			return nil, false
 		}
-		return nil, false
+		return &bngradius.SessionInfo{SessionID: s.ID, Username: s.Username, MAC: s.MAC, FramedIP: s.IPv4}, true
+	}
+	w.coa.SetSessionLookup(func(id string) (*bngradius.SessionInfo, bool) { return info(w.mgr.GetSession(id)) })
+	w.coa.SetSessionLookupByIP(func(ip net.IP) (*bngradius.SessionInfo, bool) { return info(w.mgr.GetSessionByIP(ip)) })
+	w.coa.SetSessionLookupByMAC(func(cs string) (*bngradius.SessionInfo, bool) {
+		mac, err := net.ParseMAC(cs)
+		if err != nil {
+			return nil, false
+		}
+		return info(w.mgr.GetSessionByMAC(mac))
 	})
+	w.coaSrv = coaFront(w.coa)
 	w.coa.SetSessionTerminator(func(ctx context.Context, id string, _ uint32) error {
 		return w.mgr.TerminateSession(ctx, id, subscriber.TerminateNASRequest)
 	})
@@ -383,7 +412,9 @@ func (w *smWorld) onEvent(ev *subscriber.SessionEvent) {
 		if ip, ok := w.active[ev.SessionID]; ok {
 			w.natM.DeallocateNAT(ip)
 			w.qosM.RemoveSubscriberQoS(ip)
-			w.acct.StopSession(ev.SessionID, bngradius.TerminateCauseUserRequest) // "not found" after a CoA disconnect already stopped it
+			if !(w.acctByCoA && ev.Reason == string(subscriber.TerminateNASRequest)) {
+				w.acct.StopSession(ev.SessionID, bngradius.TerminateCauseUserRequest) // "not found" after a CoA disconnect already stopped it
+			}
 			delete(w.active, ev.SessionID)
 		}
 	}
@@ -531,6 +562,10 @@ func (w *smWorld) terminate(path string) {
 	case "STOP":
 		w.mgr.Stop()
 	default:
+		if isDiscForm(path) {
+			sendDisconnect(w.coaSrv, path, w.a.id, w.a.name, w.a.addr, w.a.mac)
+			return
+		}
 		panic("unknown termination path " + path)
 	}
 }
